@@ -165,9 +165,11 @@ def waitRetIdx : Act → Option Nat
   | _ => none
 
 /-- **C13 (join and capture return the last command's status, after all commands have exited).**
+    (For `capture`: when the exchange itself succeeded; a failed exchange returns its error, see `waits_ok`.)
     The only wait whose status is returned is for command n-1; the return is the very last action,
     and before it every command that is not detached has been waited for. -/
-theorem c13_status_of_last (c0 : Cfg) (t : Term) (ht : t = .join ∨ t = .capture) (h : AllStart c0) :
+theorem c13_status_of_last (c0 : Cfg) (t : Term) (ht : t = .join ∨ t = .capture) (h : AllStart c0)
+    (hio : c0.ioFails = false) :
     ∃ pre, run c0 t = pre ++ [.ret true] ∧ pre.filterMap waitRetIdx = [c0.n - 1] ∧ pre.filterMap retVal = [] ∧
       ∀ j, j < c0.n → (effective c0 t).det j = false → j ∈ pre.filterMap waitIdx := by
   have hA := effective_allStart c0 t h
@@ -235,7 +237,7 @@ theorem c13_status_of_last (c0 : Cfg) (t : Term) (ht : t = .join ∨ t = .captur
           dropVec (effective c0 .capture) (commEnds (effective c0 .capture) .capture)
             (fun j => j = (effective c0 .capture).n - 1) (effective c0 .capture).n ++
           (commReadEnds (effective c0 .capture) .capture).map Act.close),
-      by simp only [tail, List.append_assoc], ?_, ?_, ?_⟩
+      by simp only [tail, effective_ioFails, hio, Bool.false_eq_true, if_false, List.append_assoc], ?_, ?_, ?_⟩
     · simp only [List.filterMap_append, wr_stages, wr_drop, wr_closes]
       cases capPipe (effective c0 .capture) .capture <;> simp [s1, s2, s3, s4, hnn]
     · simp only [List.filterMap_append, rets_stages, rets_dropVec, r_closes]
